@@ -9,7 +9,7 @@ from ..core import Report
 from ..ctx import paths, sites, dominates
 from ..frontend import Repo
 from ..model import is_schedule_call
-from ..rules import has_guard
+from ..rules import cell_name, has_guard, locals_by_init, names_assigned_const, names_augmented
 
 O = "reactivex/observable/"
 
@@ -81,15 +81,17 @@ def check(repo: Repo, rep: Report) -> None:
     nx = [s for s in sites(fi) if isinstance(s.node, ast.Call) and dotted(s.node.func) == "observer.on_next"]
     ok = len(nx) == 1 and isinstance(nx[0].stmt, ast.Expr)
     val = u(nx[0].node.args[0]) if nx else None
-    src = [s for s in sites(fi) if isinstance(s.node, ast.Assign) and u(s.node.targets[0]) == val and u(s.node.value) == "next(iterator)"]
+    fis = repo.fn(O + "fromiterable.py", "from_iterable_.subscribe")
+    fif = repo.fn(O + "fromiterable.py", "from_iterable_")
+    iters = locals_by_init(fis, lambda v: u(v) == f"iter({fif.params[0]})")
+    itn = iters[0] if iters else "?iterator"
+    src = [s for s in sites(fi) if isinstance(s.node, ast.Assign) and u(s.node.targets[0]) == val and u(s.node.value) == f"next({itn})"]
     hs = [h for s in sites(fi) if isinstance(s.node, ast.Try) for h in s.node.handlers]
     stop = [h for h in hs if h.type is not None and u(h.type) == "StopIteration"
             and any(isinstance(x, ast.Call) and dotted(x.func) == "observer.on_completed" for x in ast.walk(h))]
     rep.ob("Y1-single-shot", fi, "from_iterable: on_next(next(iterator)) until StopIteration -> on_completed", ok and bool(src) and bool(stop),
            "from_iterable does not emit exactly the items of the iterator and complete at StopIteration")
-    it = [s for s in sites(repo.fn(O + "fromiterable.py", "from_iterable_.subscribe")) if isinstance(s.node, ast.Assign)
-          and u(s.node.targets[0]) == "iterator" and u(s.node.value) == "iter(iterable)"]
-    rep.ob("Y1-single-shot", fi, "iterator = iter(iterable) per subscription", bool(it), "the iterator is not taken from the given iterable per subscription")
+    rep.ob("Y1-single-shot", fi, "iterator = iter(iterable) per subscription", len(iters) == 1, "the iterator is not taken from the given iterable per subscription")
     # range_
     rg = repo.fn(O + "range.py", "range_")
     rcalls = [s for s in sites(rg) if isinstance(s.node, ast.Call) and isinstance(s.node.func, ast.Name) and s.node.func.id == "range"]
@@ -125,20 +127,30 @@ def check(repo: Repo, rep: Report) -> None:
             and any(isinstance(x, ast.Call) and dotted(x.func) == "observer.on_completed" for x in ast.walk(h))]
     rep.ob("Y2-range", ra, "on_next(next(iterator)); reschedule with the same iterator; StopIteration -> completed", ok and bool(resched) and bool(stop),
            "range_ does not emit one item of its iterator per step and complete at the end")
-    first = [s for s in sites(repo.fn(O + "range.py", "range_.subscribe")) if is_schedule_call(s.node) and "iter(range_t)" in u(s.node)]
+    rvars = {u(s.stmt.targets[0]) for s in rcalls if isinstance(s.stmt, ast.Assign)}
+    first = [s for s in sites(repo.fn(O + "range.py", "range_.subscribe")) if is_schedule_call(s.node) and len(rvars) == 1
+             and any(u(a_) == f"iter({next(iter(rvars))})" for a_ in list(s.node.args) + [k.value for k in s.node.keywords])]
     rep.ob("Y2-range", ra, "first step scheduled with iter(range_t)", bool(first), "the iterator is not created from the range per subscription")
     # generate_*
     for rel, name, timed in ((O + "generate.py", "generate_", False), (O + "generatewithrelativetime.py", "generate_with_relative_time_", True)):
         act = repo.fn(rel, f"{name}.subscribe.action")
-        its = [s for s in sites(act) if isinstance(s.node, ast.Assign) and u(s.node.value) == "iterate(state)" and u(s.node.targets[0]) == "state"]
-        ok = len(its) == 1 and has_guard(its[0].ctx, "first", False)
-        clr = [s for s in sites(act) if isinstance(s.node, ast.Assign) and u(s.node.targets[0]) == "first" and u(s.node.value) == "False"
-               and has_guard(s.ctx, "first", True)]
+        gsub = repo.fn(rel, f"{name}.subscribe")
+        gfac = repo.fn(rel, name)
+        # roles: state = the subscription local initialised from the factory's initial_state; first = the flag initialised
+        # True that the action clears
+        sts = locals_by_init(gsub, lambda v: u(v) == gfac.params[0])
+        firsts = [f_ for f_ in locals_by_init(gsub, lambda v: isinstance(v, ast.Constant) and v.value is True) if f_ in names_assigned_const(act, False)]
+        rep.require(len(sts) == 1, f"{name}: state variable")
+        state, first_ = sts[0], (firsts[0] if len(firsts) == 1 else "?first-step-flag")
+        its = [s for s in sites(act) if isinstance(s.node, ast.Assign) and u(s.node.value) == f"iterate({state})" and u(s.node.targets[0]) == state]
+        ok = len(its) == 1 and has_guard(its[0].ctx, first_, False)
+        clr = [s for s in sites(act) if isinstance(s.node, ast.Assign) and u(s.node.targets[0]) == first_ and u(s.node.value) == "False"
+               and has_guard(s.ctx, first_, True)]
         rep.ob("Y3-generate", act, f"{name}: iterate skipped exactly on the first step", ok and bool(clr),
                "generate does not skip iterate on (exactly) the first step: the initial state is lost or emitted twice")
-        cond = [s for s in sites(act) if isinstance(s.node, ast.Assign) and u(s.node.value) == "condition(state)"]
+        cond = [s for s in sites(act) if isinstance(s.node, ast.Assign) and u(s.node.value) == f"condition({state})"]
         flag = u(cond[0].node.targets[0]) if cond else None
-        res = [s for s in sites(act) if isinstance(s.node, ast.Assign) and isinstance(s.node.targets[0], ast.Name) and u(s.node.value) == "state"
+        res = [s for s in sites(act) if isinstance(s.node, ast.Assign) and isinstance(s.node.targets[0], ast.Name) and u(s.node.value) == state
                and has_guard(s.ctx, flag, True)]
         resv = u(res[0].node.targets[0]) if res else "result"
         rep.ob("Y3-generate", act, f"{name}: result = state under the accepted condition", bool(cond) and bool(res) and all(dominates(its[0], c) or True for c in cond),
@@ -150,7 +162,7 @@ def check(repo: Repo, rep: Report) -> None:
         ok = len(comp) == 1 and has_guard(comp[0].ctx, flag, False)
         rep.ob("Y3-generate", act, f"{name}: completes when the condition rejects", ok, "generate does not complete exactly when the condition rejects the state")
         if timed:
-            tm = [s for s in sites(act) if isinstance(s.node, ast.Assign) and u(s.node.value) == "time_mapper(state)"]
+            tm = [s for s in sites(act) if isinstance(s.node, ast.Assign) and u(s.node.value) == f"time_mapper({state})"]
             tv = u(tm[0].node.targets[0]) if tm else "time"
             bad = []
             for s in sites(act):
@@ -171,8 +183,11 @@ def check(repo: Repo, rep: Report) -> None:
             rep.ob("Y3-generate", act, f"{name}: next step scheduled after the computed delay", ok, "the next step is not scheduled with the delay computed for the accepted state")
     # timer counting / delegations
     ta = repo.fn(O + "timer.py", "observable_timer_duetime_and_period.subscribe.action")
-    em = [s for s in sites(ta) if isinstance(s.node, ast.Call) and dotted(s.node.func) == "observer.on_next" and u(s.node.args[0]) == "count"]
-    inc = [s for s in sites(ta) if isinstance(s.node, ast.AugAssign) and u(s.node.target) == "count" and isinstance(s.node.op, ast.Add) and u(s.node.value) == "1"
+    cnts = names_augmented(ta, ast.Add)
+    if len(cnts) != 1:
+        cnts = ["?counter"]
+    em = [s for s in sites(ta) if isinstance(s.node, ast.Call) and dotted(s.node.func) == "observer.on_next" and cell_name(s.node.args[0]) == cnts[0]]
+    inc = [s for s in sites(ta) if isinstance(s.node, ast.AugAssign) and cell_name(s.node.target) == cnts[0] and isinstance(s.node.op, ast.Add) and u(s.node.value) == "1"
            and not s.ctx.branch]
     rep.ob("Y4-delegation", ta, "periodic timer emits count then count += 1", bool(em) and bool(inc) and em[0].index < inc[0].index and not em[0].ctx.branch,
            "a periodic timer does not emit 0, 1, 2, ...")
